@@ -26,9 +26,11 @@ Definition stmt_ok (E ek : env) (e : element_value) : Prop :=
 Lemma curr_addr_lt m s : SegInv m s -> s_base s + blen s < CtxSeg.U32 -> curr_addr s = s_base s + blen s.
 Proof.
   intros (H1 & H0 & H2 & _) Hlt. unfold curr_addr, sat_add32, CtxSeg.U32MAX, CtxSeg.U32, MapModel.U32MAX, MapModel.U32 in *.
-  assert (Eq : N.land (blen s) 0xFFFFFFFF = blen s).
-  { change 0xFFFFFFFF with (N.ones 32). rewrite N.land_ones. apply N.mod_small. change (2 ^ 32) with 4294967296. lia. }
-  rewrite Eq. lia.
+  (* works for both readings of `buffer.len() as u32` (truncating / saturating) *)
+  first [ lia
+        | assert (Eq : N.land (blen s) 0xFFFFFFFF = blen s)
+            by (change 0xFFFFFFFF with (N.ones 32); rewrite N.land_ones; apply N.mod_small; change (2 ^ 32) with 4294967296; lia);
+          rewrite Eq; lia ].
 Qed.
 
 Lemma has_remaining_ok dbg m s n : SegInv m s -> has_remaining dbg s n = SOk (n <=? s_max s - blen s).
